@@ -39,6 +39,13 @@ let rec add n m =
   | O -> m
   | S p -> S (add p m)
 
+(** val mul : nat -> nat -> nat **)
+
+let rec mul n m =
+  match n with
+  | O -> O
+  | S p -> add m (mul p m)
+
 (** val sub : nat -> nat -> nat **)
 
 let rec sub n m =
@@ -81,6 +88,16 @@ module Nat =
     leb (S n) m
  end
 
+(** val nth_error : 'a1 list -> nat -> 'a1 option **)
+
+let rec nth_error l = function
+| O -> (match l with
+        | [] -> None
+        | x :: _ -> Some x)
+| S n0 -> (match l with
+           | [] -> None
+           | _ :: l0 -> nth_error l0 n0)
+
 (** val rev : 'a1 list -> 'a1 list **)
 
 let rec rev = function
@@ -117,6 +134,12 @@ let rec fold_right f a0 = function
 let rec existsb f = function
 | [] -> false
 | a :: l0 -> (||) (f a) (existsb f l0)
+
+(** val forallb : ('a1 -> bool) -> 'a1 list -> bool **)
+
+let rec forallb f = function
+| [] -> true
+| a :: l0 -> (&&) (f a) (forallb f l0)
 
 (** val filter : ('a1 -> bool) -> 'a1 list -> 'a1 list **)
 
@@ -1089,3 +1112,601 @@ let rel_to_cwd cwd p = match p with
 
 let portion_after_sep l occ =
   skipn (sub (length l) (add occ (S O))) l
+
+type var =
+| VL of nat
+| VG of nat
+
+type fname = nat
+
+type dsite = nat
+
+(** val var_eqb : var -> var -> bool **)
+
+let var_eqb x y =
+  match x with
+  | VL a -> (match y with
+             | VL b -> Nat.eqb a b
+             | VG _ -> false)
+  | VG a -> (match y with
+             | VL _ -> false
+             | VG b -> Nat.eqb a b)
+
+(** val is_glob : var -> bool **)
+
+let is_glob = function
+| VL _ -> false
+| VG _ -> true
+
+type atom_e =
+| ANil
+| ANew
+| AVar of var
+
+type cond =
+| COpaque
+| CNonNil of var
+| CDeref of dsite * var
+| CNot of cond
+| CAnd of cond * cond
+| COr of cond * cond
+
+type stmt =
+| SSkip
+| SSeq of stmt * stmt
+| SAssign of var * atom_e
+| SCall of var option * fname * atom_e list
+| SDeref of dsite * var
+| SIf of cond * stmt * stmt
+| SWhile of cond * stmt
+| SReturn of atom_e
+
+type func = { f_nparams : nat; f_body : stmt }
+
+type program = { p_funcs : func list; p_ginit : bool list }
+
+type value =
+| VNil
+| VPtr
+
+type store0 = (var * value) list
+
+(** val sget : store0 -> var -> value **)
+
+let rec sget s x =
+  match s with
+  | [] -> VNil
+  | p :: s' -> let (y, v) = p in if var_eqb y x then v else sget s' x
+
+(** val sset : store0 -> var -> value -> store0 **)
+
+let sset s x v =
+  (x, v) :: s
+
+(** val globals_of : store0 -> store0 **)
+
+let globals_of s =
+  filter (fun yv -> is_glob (fst yv)) s
+
+(** val locals_of : store0 -> store0 **)
+
+let locals_of s =
+  filter (fun yv -> negb (is_glob (fst yv))) s
+
+(** val eval_atom : store0 -> atom_e -> value **)
+
+let eval_atom s = function
+| ANil -> VNil
+| ANew -> VPtr
+| AVar x -> sget s x
+
+type outcome0 =
+| ONormal of store0 * bool list
+| OReturn of value * store0 * bool list
+| OPanic of dsite
+| OOutOfFuel
+
+type cres =
+| CVal of bool * bool list
+| CPanic of dsite
+
+(** val ask : bool list -> bool * bool list **)
+
+let ask = function
+| [] -> (false, [])
+| b :: o -> (b, o)
+
+(** val eval_cond : store0 -> cond -> bool list -> cres **)
+
+let rec eval_cond s c oracle =
+  match c with
+  | COpaque -> let (b, o) = ask oracle in CVal (b, o)
+  | CNonNil x ->
+    CVal ((match sget s x with
+           | VNil -> false
+           | VPtr -> true), oracle)
+  | CDeref (d, x) ->
+    (match sget s x with
+     | VNil -> CPanic d
+     | VPtr -> let (b, o) = ask oracle in CVal (b, o))
+  | CNot c1 ->
+    (match eval_cond s c1 oracle with
+     | CVal (b, o) -> CVal ((negb b), o)
+     | CPanic d -> CPanic d)
+  | CAnd (c1, c2) ->
+    (match eval_cond s c1 oracle with
+     | CVal (b, o) -> if b then eval_cond s c2 o else CVal (false, o)
+     | CPanic d -> CPanic d)
+  | COr (c1, c2) ->
+    (match eval_cond s c1 oracle with
+     | CVal (b, o) -> if b then CVal (true, o) else eval_cond s c2 o
+     | CPanic d -> CPanic d)
+
+(** val bind_params : nat -> value list -> store0 **)
+
+let rec bind_params i = function
+| [] -> []
+| v :: vs' -> ((VL i), v) :: (bind_params (S i) vs')
+
+(** val init_globals : nat -> bool list -> store0 **)
+
+let rec init_globals k = function
+| [] -> []
+| b :: gi' ->
+  app (if b then ((VG k), VPtr) :: [] else []) (init_globals (S k) gi')
+
+(** val exec : program -> nat -> stmt -> store0 -> bool list -> outcome0 **)
+
+let rec exec prog fuel st s oracle =
+  match fuel with
+  | O -> OOutOfFuel
+  | S fuel' ->
+    (match st with
+     | SSkip -> ONormal (s, oracle)
+     | SSeq (s1, s2) ->
+       (match exec prog fuel' s1 s oracle with
+        | ONormal (s', o') -> exec prog fuel' s2 s' o'
+        | x -> x)
+     | SAssign (x, a) -> ONormal ((sset s x (eval_atom s a)), oracle)
+     | SCall (x, f, args) ->
+       (match nth_error prog.p_funcs f with
+        | Some fd ->
+          let after = fun s' v ->
+            let s1 = app (globals_of s') (locals_of s) in
+            (match x with
+             | Some y -> sset s1 y v
+             | None -> s1)
+          in
+          (match exec prog fuel' fd.f_body
+                   (app (bind_params O (map (eval_atom s) args))
+                     (globals_of s)) oracle with
+           | ONormal (s', o') -> ONormal ((after s' VNil), o')
+           | OReturn (v, s', o') -> ONormal ((after s' v), o')
+           | x0 -> x0)
+        | None -> ONormal (s, oracle))
+     | SDeref (d, x) ->
+       (match sget s x with
+        | VNil -> OPanic d
+        | VPtr -> ONormal (s, oracle))
+     | SIf (c, s1, s2) ->
+       (match eval_cond s c oracle with
+        | CVal (b, o') ->
+          if b then exec prog fuel' s1 s o' else exec prog fuel' s2 s o'
+        | CPanic d -> OPanic d)
+     | SWhile (c, body) ->
+       (match eval_cond s c oracle with
+        | CVal (b, o') ->
+          if b
+          then (match exec prog fuel' body s o' with
+                | ONormal (s', o'') ->
+                  exec prog fuel' (SWhile (c, body)) s' o''
+                | x -> x)
+          else ONormal (s, o')
+        | CPanic d -> OPanic d)
+     | SReturn a -> OReturn ((eval_atom s a), s, oracle))
+
+(** val run_program : program -> nat -> bool list -> outcome0 **)
+
+let run_program prog fuel oracle =
+  match nth_error prog.p_funcs O with
+  | Some fd -> exec prog fuel fd.f_body (init_globals O prog.p_ginit) oracle
+  | None -> ONormal ([], oracle)
+
+(** val panic_of : outcome0 -> dsite option **)
+
+let panic_of = function
+| OPanic d -> Some d
+| _ -> None
+
+type asite =
+| SParam of fname * nat
+| SResult of fname
+| SGlobal of nat
+
+(** val enc : asite -> site **)
+
+let enc = function
+| SParam (f, i) ->
+  mul (S (S (S O)))
+    (add
+      (mul f (S (S (S (S (S (S (S (S (S (S (S (S (S (S (S (S (S (S (S (S (S
+        (S (S (S (S (S (S (S (S (S (S (S (S (S (S (S (S (S (S (S (S (S (S (S
+        (S (S (S (S (S (S (S (S (S (S (S (S (S (S (S (S (S (S (S (S
+        O))))))))))))))))))))))))))))))))))))))))))))))))))))))))))))))))) i)
+| SResult f -> add (mul (S (S (S O))) f) (S O)
+| SGlobal k -> add (mul (S (S (S O))) k) (S (S O))
+
+type prod0 =
+| PNil
+| PNever
+| PSite of asite
+| PStale
+
+(** val asite_eqb : asite -> asite -> bool **)
+
+let asite_eqb s t =
+  match s with
+  | SParam (f, i) ->
+    (match t with
+     | SParam (g, j) -> (&&) (Nat.eqb f g) (Nat.eqb i j)
+     | _ -> false)
+  | SResult f -> (match t with
+                  | SResult g -> Nat.eqb f g
+                  | _ -> false)
+  | SGlobal k -> (match t with
+                  | SGlobal l -> Nat.eqb k l
+                  | _ -> false)
+
+(** val prod_eqb : prod0 -> prod0 -> bool **)
+
+let prod_eqb p q =
+  match p with
+  | PNil -> (match q with
+             | PNil -> true
+             | _ -> false)
+  | PNever -> (match q with
+               | PNever -> true
+               | _ -> false)
+  | PSite s -> (match q with
+                | PSite t -> asite_eqb s t
+                | _ -> false)
+  | PStale -> (match q with
+               | PStale -> true
+               | _ -> false)
+
+(** val kind_of : prod0 -> kind **)
+
+let kind_of = function
+| PNil -> KAlways
+| PSite s -> KCond (enc s)
+| _ -> KNever
+
+(** val use_ok : prod0 list -> bool **)
+
+let use_ok ps =
+  negb (existsb (prod_eqb PStale) ps)
+
+type aset = prod0 list
+
+type env = (var * aset) list
+
+(** val dflt : var -> aset **)
+
+let dflt = function
+| VL _ -> PNil :: []
+| VG k -> (PSite (SGlobal k)) :: []
+
+(** val aget : env -> var -> aset **)
+
+let rec aget e x =
+  match e with
+  | [] -> dflt x
+  | p :: e' -> let (y, a) = p in if var_eqb y x then a else aget e' x
+
+(** val aput : env -> var -> aset -> env **)
+
+let aput e x a =
+  (x, a) :: e
+
+(** val prods_of_atom : env -> atom_e -> aset **)
+
+let prods_of_atom e = function
+| ANil -> PNil :: []
+| ANew -> PNever :: []
+| AVar x -> aget e x
+
+(** val mk_trigger : nat -> prod0 -> kind -> trigger **)
+
+let mk_trigger id p c =
+  { t_id = id; t_prod = (kind_of p); t_cons = c; t_ctrl = None }
+
+(** val keys : env -> var list **)
+
+let keys e =
+  map fst e
+
+(** val subset_b : aset -> aset -> bool **)
+
+let subset_b a b =
+  forallb (fun p -> existsb (prod_eqb p) b) a
+
+(** val env_leb : env -> env -> bool **)
+
+let env_leb e1 e2 =
+  forallb (fun x -> subset_b (aget e1 x) (aget e2 x))
+    (app (keys e1) (keys e2))
+
+(** val union : aset -> aset -> aset **)
+
+let union a b =
+  app a (filter (fun p -> negb (existsb (prod_eqb p) a)) b)
+
+(** val dedup_vars : var list -> var list **)
+
+let rec dedup_vars = function
+| [] -> []
+| x :: l' ->
+  if existsb (var_eqb x) l' then dedup_vars l' else x :: (dedup_vars l')
+
+(** val join : env -> env -> env **)
+
+let join e1 e2 =
+  map (fun x -> (x, (union (aget e1 x) (aget e2 x))))
+    (dedup_vars (app (keys e1) (keys e2)))
+
+(** val join_opt : env option -> env option -> env option **)
+
+let join_opt o1 o2 =
+  match o1 with
+  | Some e1 -> (match o2 with
+                | Some e2 -> Some (join e1 e2)
+                | None -> o1)
+  | None -> o2
+
+(** val acond : cond -> env -> ((env * env) * trigger list) * bool **)
+
+let rec acond c e =
+  match c with
+  | COpaque -> (((e, e), []), true)
+  | CNonNil x -> ((((aput e x (PNever :: [])), e), []), true)
+  | CDeref (d, x) ->
+    (((e, e), (map (fun p -> mk_trigger d p KAlways) (aget e x))),
+      (use_ok (aget e x)))
+  | CNot c1 ->
+    let (p, b) = acond c1 e in
+    let (p0, tr) = p in let (et, ef) = p0 in (((ef, et), tr), b)
+  | CAnd (c1, c2) ->
+    let (p, b1) = acond c1 e in
+    let (p0, tr1) = p in
+    let (et1, ef1) = p0 in
+    let (p1, b2) = acond c2 et1 in
+    let (p2, tr2) = p1 in
+    let (et2, ef2) = p2 in
+    (((et2, (join ef1 ef2)), (app tr1 tr2)), ((&&) b1 b2))
+  | COr (c1, c2) ->
+    let (p, b1) = acond c1 e in
+    let (p0, tr1) = p in
+    let (et1, ef1) = p0 in
+    let (p1, b2) = acond c2 ef1 in
+    let (p2, tr2) = p1 in
+    let (et2, ef2) = p2 in
+    ((((join et1 et2), ef2), (app tr1 tr2)), ((&&) b1 b2))
+
+(** val cond_true : cond -> env -> env **)
+
+let cond_true c e =
+  fst (fst (fst (acond c e)))
+
+(** val store_triggers : var -> aset -> trigger list **)
+
+let store_triggers x a =
+  match x with
+  | VL _ -> []
+  | VG k -> map (fun p -> mk_trigger O p (KCond (enc (SGlobal k)))) a
+
+(** val arg_triggers : env -> fname -> nat -> atom_e list -> trigger list **)
+
+let rec arg_triggers e g i = function
+| [] -> []
+| a :: args' ->
+  app
+    (map (fun p -> mk_trigger O p (KCond (enc (SParam (g, i)))))
+      (prods_of_atom e a)) (arg_triggers e g (S i) args')
+
+(** val fresh : env -> nat -> bool **)
+
+let fresh e k =
+  existsb (prod_eqb (PSite (SGlobal k))) (aget e (VG k))
+
+(** val mark_stale : nat -> env -> env **)
+
+let rec mark_stale ng e =
+  match ng with
+  | O -> e
+  | S k ->
+    let e' = mark_stale k e in
+    if fresh e k then e' else aput e' (VG k) (PStale :: (aget e (VG k)))
+
+type ares = { a_env : env option; a_trig : trigger list; a_gsafe : bool }
+
+(** val loop_inv :
+    (env -> ares option) -> cond -> nat -> env -> (env * ares) option **)
+
+let rec loop_inv an_body c n e =
+  match n with
+  | O -> None
+  | S n' ->
+    (match an_body (cond_true c e) with
+     | Some r ->
+       (match r.a_env with
+        | Some eb ->
+          if env_leb eb e
+          then Some (e, r)
+          else loop_inv an_body c n' (join e eb)
+        | None -> Some (e, r))
+     | None -> None)
+
+(** val analyze : nat -> fname -> nat -> stmt -> env -> ares option **)
+
+let rec analyze ng f fuel st e =
+  match st with
+  | SSkip -> Some { a_env = (Some e); a_trig = []; a_gsafe = true }
+  | SSeq (s1, s2) ->
+    (match analyze ng f fuel s1 e with
+     | Some r1 ->
+       (match r1.a_env with
+        | Some e1 ->
+          (match analyze ng f fuel s2 e1 with
+           | Some r2 ->
+             Some { a_env = r2.a_env; a_trig = (app r1.a_trig r2.a_trig);
+               a_gsafe = ((&&) r1.a_gsafe r2.a_gsafe) }
+           | None -> None)
+        | None -> Some r1)
+     | None -> None)
+  | SAssign (x, a) ->
+    let ps = prods_of_atom e a in
+    Some { a_env = (Some (aput e x ps)); a_trig = (store_triggers x ps);
+    a_gsafe = ((||) (use_ok ps) (negb (is_glob x))) }
+  | SCall (x, g, args) ->
+    let res = (PSite (SResult g)) :: [] in
+    let e' = mark_stale ng e in
+    Some { a_env = (Some
+    (match x with
+     | Some y -> aput e' y res
+     | None -> e')); a_trig =
+    (app (arg_triggers e g O args)
+      (match x with
+       | Some y -> store_triggers y res
+       | None -> [])); a_gsafe =
+    (forallb (fun a -> use_ok (prods_of_atom e a)) args) }
+  | SDeref (d, x) ->
+    Some { a_env = (Some e); a_trig =
+      (map (fun p -> mk_trigger d p KAlways) (aget e x)); a_gsafe =
+      (use_ok (aget e x)) }
+  | SIf (c, s1, s2) ->
+    let (p, bc) = acond c e in
+    let (p0, trc) = p in
+    let (et, ef) = p0 in
+    (match analyze ng f fuel s1 et with
+     | Some r1 ->
+       (match analyze ng f fuel s2 ef with
+        | Some r2 ->
+          Some { a_env = (join_opt r1.a_env r2.a_env); a_trig =
+            (app trc (app r1.a_trig r2.a_trig)); a_gsafe =
+            ((&&) ((&&) bc r1.a_gsafe) r2.a_gsafe) }
+        | None -> None)
+     | None -> None)
+  | SWhile (c, body) ->
+    (match loop_inv (analyze ng f fuel body) c fuel e with
+     | Some p ->
+       let (einv, r) = p in
+       let (p0, bc) = acond c einv in
+       let (p1, trc) = p0 in
+       let (_, ef) = p1 in
+       Some { a_env = (Some ef); a_trig = (app trc r.a_trig); a_gsafe =
+       ((&&) bc r.a_gsafe) }
+     | None -> None)
+  | SReturn a ->
+    Some { a_env = None; a_trig =
+      (map (fun p -> mk_trigger O p (KCond (enc (SResult f))))
+        (prods_of_atom e a)); a_gsafe = (use_ok (prods_of_atom e a)) }
+
+(** val entry_env : fname -> nat -> nat -> env **)
+
+let rec entry_env f i = function
+| O -> []
+| S n' -> ((VL i), ((PSite (SParam (f, i))) :: [])) :: (entry_env f (S i) n')
+
+(** val analyze_func :
+    nat -> nat -> fname -> func -> (trigger list * bool) option **)
+
+let analyze_func ng fuel f fd =
+  match analyze ng f fuel fd.f_body (entry_env f O fd.f_nparams) with
+  | Some r ->
+    Some
+      ((match r.a_env with
+        | Some _ ->
+          app r.a_trig ((mk_trigger O PNil (KCond (enc (SResult f)))) :: [])
+        | None -> r.a_trig), r.a_gsafe)
+  | None -> None
+
+(** val analyze_funcs :
+    nat -> nat -> fname -> func list -> (trigger list list * bool) option **)
+
+let rec analyze_funcs ng fuel f = function
+| [] -> Some ([], true)
+| fd :: rest ->
+  (match analyze_func ng fuel f fd with
+   | Some p ->
+     let (t1, b1) = p in
+     (match analyze_funcs ng fuel (S f) rest with
+      | Some p0 -> let (t2, b2) = p0 in Some ((t1 :: t2), ((&&) b1 b2))
+      | None -> None)
+   | None -> None)
+
+(** val decl_triggers : nat -> bool list -> trigger list **)
+
+let rec decl_triggers k = function
+| [] -> []
+| b :: gi' ->
+  app (if b then [] else (mk_trigger O PNil (KCond (enc (SGlobal k)))) :: [])
+    (decl_triggers (S k) gi')
+
+(** val analyze_program :
+    nat -> program -> ((trigger list * trigger list list) * bool) option **)
+
+let analyze_program fuel p =
+  match analyze_funcs (length p.p_ginit) fuel O p.p_funcs with
+  | Some p0 ->
+    let (tss, b) = p0 in Some (((decl_triggers O p.p_ginit), tss), b)
+  | None -> None
+
+(** val var_ok : program -> var -> bool **)
+
+let var_ok p = function
+| VL _ -> true
+| VG k -> Nat.ltb k (length p.p_ginit)
+
+(** val atom_ok : program -> atom_e -> bool **)
+
+let atom_ok p = function
+| AVar x -> var_ok p x
+| _ -> true
+
+(** val cond_ok : program -> cond -> bool **)
+
+let rec cond_ok p = function
+| COpaque -> true
+| CNonNil x -> var_ok p x
+| CDeref (_, x) -> var_ok p x
+| CNot c1 -> cond_ok p c1
+| CAnd (c1, c2) -> (&&) (cond_ok p c1) (cond_ok p c2)
+| COr (c1, c2) -> (&&) (cond_ok p c1) (cond_ok p c2)
+
+(** val stmt_ok : program -> stmt -> bool **)
+
+let rec stmt_ok p = function
+| SSkip -> true
+| SSeq (a, b) -> (&&) (stmt_ok p a) (stmt_ok p b)
+| SAssign (x, a) -> (&&) (var_ok p x) (atom_ok p a)
+| SCall (x, g, args) ->
+  (&&)
+    ((&&)
+      (match nth_error p.p_funcs g with
+       | Some fd -> Nat.eqb (length args) fd.f_nparams
+       | None -> false) (forallb (atom_ok p) args))
+    (match x with
+     | Some y -> var_ok p y
+     | None -> true)
+| SDeref (_, x) -> var_ok p x
+| SIf (c, a, b) -> (&&) ((&&) (cond_ok p c) (stmt_ok p a)) (stmt_ok p b)
+| SWhile (c, b) -> (&&) (cond_ok p c) (stmt_ok p b)
+| SReturn a -> atom_ok p a
+
+(** val wf_program : program -> bool **)
+
+let wf_program p =
+  (&&) (forallb (fun fd -> stmt_ok p fd.f_body) p.p_funcs)
+    (match p.p_funcs with
+     | [] -> true
+     | fd :: _ -> Nat.eqb fd.f_nparams O)
